@@ -157,6 +157,11 @@ pub fn maps_reset() {
     crate::signals::verif_reset_maps()
 }
 
+/// Restore the four parked-event maps from a snapshot taken with `maps_snapshot`.
+pub fn maps_restore(snap: &(Vec<(i32, i32)>, Vec<i32>, Vec<i32>, Vec<(i32, i32)>)) {
+    crate::signals::verif_set_maps(&snap.0, &snap.1, &snap.2, &snap.3)
+}
+
 /// Path completion as the line editor would ask for it:
 /// (completion text, suffix) with suffix `None` = editor default (a blank).
 pub fn complete_path(word: &str, for_dir: bool) -> Vec<(String, Option<char>)> {
